@@ -1,6 +1,6 @@
 (* C09 — merge loses nothing when inputs agree on names; identity and fold laws. *)
 From Sigtools.Model Require Import Base Bind Roles Algebra Universe.
-From Sigtools.Proofs Require Import SmallModel Basics SweepDefs Bounded MergeNeutral MergeIdem SweepDefs2 SweepDefs3 Bounded3 MergeNeutralL FoldLaw RcValidN MergeExact.
+From Sigtools.Proofs Require Import SmallModel Basics SweepDefs Bounded MergeNeutral MergeIdem SweepDefs2 SweepDefs3 Bounded3 MergeNeutralL FoldLaw RcValidN MergeExact MergeExactN.
 
 (* apply_params(s, *sort_params(s)) equals s, for all valid signatures *)
 Theorem C09_sort_apply_roundtrip s :
@@ -124,4 +124,28 @@ Print Assumptions C09_merge_exact.
 Theorem C09_merge_exact_mk : forall a b : list param, valid_sig a = true -> valid_sig b = true -> name_aligned a b = true -> role_consistent [a; b] = true -> match merge [{| params := a; ret := None; uret := UEmpty; srcs := []; deps := [] |}; {| params := b; ret := None; uret := UEmpty; srcs := []; deps := [] |}] with | Ok r => forall c : call, noncolliding c (params r) [a; b] = true -> accepts (params r) c = accepts a c && accepts b c | Err e => e = Incompatible /\ (forall c : call, accepts a c && accepts b c = false) end.
 Proof. exact @MergeExact.merge_exact_mk. Qed.
 Print Assumptions C09_merge_exact_mk.
+
+
+(* ---- exactness through the n-ary fold (Proofs/MergeExactN.v): a successful merge of any number of valid
+   name-aligned role-consistent inputs accepts exactly the non-colliding calls all inputs accept; the raise
+   clause is FALSE for three inputs (known finding C09:nary-raise-order: it depends on the order) ---- *)
+Theorem C09_merge_exact_n_ok : forall (ss : list sigT) (r : sigT), RcValidN.all_valid ss -> all_aligned (map params ss) = true -> role_consistent (map params ss) = true -> merge ss = Ok r -> forall c : call, noncolliding c (params r) (map params ss) = true -> accepts (params r) c = forallb (fun s : sigT => accepts (params s) c) ss.
+Proof. exact @MergeExactN.merge_exact_n_ok. Qed.
+Print Assumptions C09_merge_exact_n_ok.
+
+Theorem C09_merge_nested_exact_n_ok : forall (ss : list sigT) (r : sigT), RcValidN.all_valid ss -> all_aligned (map params ss) = true -> role_consistent (map params ss) = true -> merge_nested ss = Ok r -> forall c : call, noncolliding c (params r) (map params ss) = true -> accepts (params r) c = forallb (fun s : sigT => accepts (params s) c) ss.
+Proof. exact @MergeExactN.merge_nested_exact_n_ok. Qed.
+Print Assumptions C09_merge_nested_exact_n_ok.
+
+Theorem C09_merge_exact_n_err_refuted : exists (ss : list sigT) (c : call), RcValidN.all_valid ss /\ all_aligned (map params ss) = true /\ role_consistent (map params ss) = true /\ merge ss = Err Incompatible /\ forallb (fun s : sigT => accepts (params s) c) ss = true.
+Proof. exact @MergeExactN.merge_exact_n_err_refuted. Qed.
+Print Assumptions C09_merge_exact_n_err_refuted.
+
+Theorem C09_merge_raise_depends_on_order : exists a b c : sigT, RcValidN.all_valid [a; b; c] /\ all_aligned (map params [a; b; c]) = true /\ role_consistent (map params [a; b; c]) = true /\ merge [a; b; c] = Err Incompatible /\ (exists r : sigT, merge [a; c; b] = Ok r /\ params r = [{| pname := 1; pkind := KO; pdef := None; pann := None; puann := UEmpty |}]).
+Proof. exact @MergeExactN.merge_raise_depends_on_order. Qed.
+Print Assumptions C09_merge_raise_depends_on_order.
+
+Theorem C09_merge_exact_n_err_partial : forall (s0 : sigT) (ss : list sigT) (e : err), RcValidN.all_valid (s0 :: ss) -> role_consistent (map params (s0 :: ss)) = true -> merge (s0 :: ss) = Err e -> e = Incompatible /\ (exists (done : list sigT) (c : sigT) (rest : list sigT) (acc1 : sorted) (e1 : err) (r1 : sigT), ss = done ++ c :: rest /\ merge_steps (sort_params s0) done = Ok acc1 /\ merge (s0 :: done) = Ok r1 /\ params r1 = flatten acc1 /\ merger acc1 (sort_params c) = Err e1).
+Proof. exact @MergeExactN.merge_exact_n_err_partial. Qed.
+Print Assumptions C09_merge_exact_n_err_partial.
 
